@@ -403,12 +403,49 @@ def measure2(cases, lines):
 
 # ----------------------------------------------------------------------------------------------- stages
 GEN = ['gen_keeper.json', 'gen_arrit.json', 'gen_shifter.json', 'gen_array.json', 'gen_mmguard.json', 'gen_selguard.json',
-       'gen_dtguard.json', 'gen_treeit.json', 'gen_segarr.json', 'gen_rawit.json']
+       'gen_dtguard.json', 'gen_treeit.json', 'gen_segarr.json', 'gen_rawit.json', 'gen_mhit.json']
+
+
+def prefetch_gen(ctx):
+    """cold-start time: every (translation unit, AST filter) clang dump the translator will ask for - eleven class dumps and the
+    CheckMode enum dump that all configs share - is produced once, four clang processes at a time; ctx.regen then translates from
+    these texts (cxx2coq.dump_ast is wrapped by a cache for this process only; nothing else about the translation changes)."""
+    import concurrent.futures as cf
+    orig = cxx2coq.dump_ast
+    if getattr(orig, '_c15_cached', False):
+        return
+    cache = {}
+    def key(cfg, repo):
+        return (cfg['tu'], cfg['filter'], tuple(cfg.get('defines', [])), cfg.get('std', 'c++17'),
+                tuple(cfg.get('includes', [os.path.join(repo, 'include')])), repo)
+    def cached(cfg, repo='/repo'):
+        k = key(cfg, repo)
+        if k not in cache:
+            cache[k] = orig(cfg, repo)
+        if isinstance(cache[k], Exception):
+            raise cache[k]
+        return cache[k]
+    cached._c15_cached = True
+    uniq = {}
+    for cf_ in GEN:
+        cfg = json.load(open(os.path.join(ctx.pdir, cf_))); cfg.setdefault('includes', [os.path.join(ctx.repo, 'include')])
+        uniq.setdefault(key(cfg, ctx.repo), cfg)
+        for en in cfg.get('enum_types', []):
+            c2 = dict(cfg); c2['filter'] = en
+            uniq.setdefault(key(c2, ctx.repo), c2)
+    def dump(c):
+        try: return orig(c, ctx.repo)
+        except Exception as e: return e
+    with cf.ThreadPoolExecutor(max_workers=4) as ex:
+        for k, r in zip(list(uniq.keys()), ex.map(dump, list(uniq.values()))):
+            cache[k] = r
+    cxx2coq.dump_ast = cached
 
 
 def regen_table(ctx):
     out = os.path.join(ctx.cdir, 'Gen_VersionTable.v')
     try:
+        vtable.prefetch(ctx.repo)
         rows = vtable.build(ctx.repo)
         missing = [r for r in rows if r['uninstantiated'] and not r['const']]      # (DataTable: only the DT_MUST names are kept)
         if missing:
@@ -463,7 +500,8 @@ def replay(ctx, rp):
 
 def finding_key(case, why=''):
     """key of a reported-but-not-yet-fixed momo defect this failing case is an instance of (for known_findings.txt), else None.
-    No open findings (the signed-overflow key of grow round 2 was dropped when /repo commit e44962b fixed it)."""
+    No open findings: the signed-overflow key of grow round 2 was dropped when /repo commit e44962b fixed it, the key
+    multihash-iterator-past-end-unchecked of grow round 4 when DataRawMultiHashIterator got its upper bound (harness2 uses 37, 38, 42)."""
     return None
 
 
@@ -515,14 +553,18 @@ def run(ctx):
     ctx.assumptions += ['version counters do not wrap (size_t)',
                         'handles are not used after their container (its SetCrew::Data cell) has been destroyed or assigned to',
                         'ResetKey is given a key equivalent to the old one (otherwise hash/order is broken: outside the claim)']
-    ctx.regen(GEN)            # cxx2coq: the real guard prefixes (VersionKeeper::Check, index / range / count guards, iterator ++ / ->)
-    regen_table(ctx)
-    ctx.prove()
     jobs = [('harness.cpp', 'harness', []), ('harness2.cpp', 'harness2', []), ('harness3.cpp', 'harness3', [])]
     UB = ['-fsanitize=undefined', '-fno-sanitize-recover=all']
     jobs = [j for j in jobs if os.path.exists(os.path.join(ctx.pdir, j[0]))]
-    built = ctx.cxx_many(jobs)
-    ubsan = ctx.cxx('ubsan_adv.cpp', 'ubsan_adv', UB, sanitize=False)        # small TU, UBSan in every tier (fix e44962b)
+    # cold-start time: the four C++ builds (g++ subprocesses) run in a background thread while the translator and coqc work
+    import concurrent.futures as cf
+    pool = cf.ThreadPoolExecutor(max_workers=1)
+    fut = pool.submit(lambda: (ctx.cxx_many(jobs), ctx.cxx('ubsan_adv.cpp', 'ubsan_adv', UB, sanitize=False)))   # ubsan_adv: small TU, UBSan in every tier (fix e44962b)
+    prefetch_gen(ctx)
+    ctx.regen(GEN)            # cxx2coq: the real guard prefixes (VersionKeeper::Check, index / range / count guards, iterator ++ / ->)
+    regen_table(ctx)
+    ctx.prove()
+    built, ubsan = fut.result(); pool.shutdown()
     harness = built.get('harness')
     if harness is None:
         ctx.stage('build-harness', False, getattr(ctx, 'last_cxx_error', ''))
